@@ -6,37 +6,16 @@
 #define VF_MAIN
 #include "vf.h"
 #include "common.h"
-#include "w_cdlist.h"
-#include "w_hlist.h"
-#include "w_slist.h"
-#include "w_xdlist.h"
+#include "cobjs.h"
+#include <igris/container/dlist.h>
 #include <cstddef>
 
 using namespace c01;
 
-// triage aid (not used by the registered check): C01_ONLY=<substring of a suite name> runs only matching suites,
-// C01_MAXCASES=n caps every suite; required clauses then report "observed nothing", which is expected
-static uint64_t limited(const char *suite, uint64_t n)
-{
-    const char *only = getenv("C01_ONLY"), *mx = getenv("C01_MAXCASES");
-    if (only && *only && !strstr(suite, only))
-        return 0;
-    if (mx && *mx && strtoull(mx, nullptr, 0) < n)
-        return strtoull(mx, nullptr, 0);
-    return n;
-}
-#define C01_SUITES(W, tag)                                                                                                                           \
-    static uint64_t tag##_dfs_count() { return limited(#tag "_dfs", Runner<W>::dfs_count()); }                                                      \
-    static void tag##_dfs_run(uint64_t i) { Runner<W>::dfs_run(i); }                                                                                \
-    static uint64_t tag##_rnd_count() { return limited(#tag "_rnd", Runner<W>::rnd_count()); }                                                      \
-    static void tag##_rnd_run(uint64_t i) { Runner<W>::rnd_run(i); }                                                                                \
-    VF_SUITE(tag##_dfs, tag##_dfs_count, tag##_dfs_run)                                                                                             \
-    VF_SUITE(tag##_rnd, tag##_rnd_count, tag##_rnd_run)
-
-C01_SUITES(CDL, cdlist)
-C01_SUITES(XDL, xdlist)
-C01_SUITES(SL, slist)
-C01_SUITES(HL, hlist)
+void c01_require_cdlist();
+void c01_require_xdlist();
+void c01_require_slist();
+void c01_require_hlist();
 
 // member.h / memberxx.h used directly (they are what every *_entry macro and iterator rests on)
 static uint64_t member_count() { return 1; }
@@ -59,7 +38,11 @@ static void member_run(uint64_t)
     if (mcast_in_or_null(np, lnk) != nullptr || mcast_in_or_null(&c, lnk) != &c.lnk || mcast_out_or_null(nl, cobj, lnk) != nullptr ||
         mcast_out_or_null(&c.lnk, cobj, lnk) != &c)
         vf::fail("member:mcast_or_null", "the _or_null casts do not map NULL to NULL / p to its container");
-    XObj x(5);
+    struct XObj
+    {
+        long id;
+        igris::dlist_node lnk;
+    } x;
     if (member_offset(&XObj::lnk) != offsetof(XObj, lnk) || member_container(&x.lnk, &XObj::lnk) != &x)
         vf::fail("member:memberxx", "member_offset / member_container disagree with offsetof");
     VF_OK("member.h / memberxx.h: offsetof, sizeof, container casts (incl. _or_null) agree with the language's own");
@@ -91,24 +74,18 @@ extern "C" void vf_setup()
              "slist: slist_size, slist_empty, slist_first_entry == model",
              "slist: slist_in of every node == model (popped nodes in no list)",
              "slist: slist_pop_first returns the first element of the model",
-             "slist: slist_pop_first on an empty list returns NULL",
              "slist: igris::slist iteration (iterator, range-for) and empty() == model",
-             "slist: popping until NULL yields the model order and leaves an empty head",
+             "slist: popping until empty yields the model order and leaves an empty head",
              "hlist: forward == model, *n->pprev == n for every linked node, no stale or removed node reachable",
              "hlist: hlist_for_each / hlist_for_each_entry (C++ and C) == model",
              "hlist: emptiness and hlist_first_entry == model",
-             "hlist: hlist_del of an initialised, never linked node is harmless",
              "hlist: deleting every node (front to back / back to front) visits the model order and empties the head",
              "member.h / memberxx.h: offsetof, sizeof, container casts (incl. _or_null) agree with the language's own",
          })
         vf::require(c);
     // every operation kind must have been driven
-    for (int k = 0; k < CDL::K_COUNT; k++)
-        vf::require((std::string("op cdlist ") + CDL::kind_name(k)).c_str());
-    for (int k = 0; k < XDL::K_COUNT; k++)
-        vf::require((std::string("op xdlist ") + XDL::kind_name(k)).c_str());
-    for (int k = 0; k < SL::K_COUNT; k++)
-        vf::require((std::string("op slist ") + SL::kind_name(k)).c_str());
-    for (int k = 0; k < HL::K_COUNT; k++)
-        vf::require((std::string("op hlist ") + HL::kind_name(k)).c_str());
+    c01_require_cdlist();
+    c01_require_xdlist();
+    c01_require_slist();
+    c01_require_hlist();
 }
